@@ -134,6 +134,7 @@ void prop_c11(hz::Ctx &ctx) {
         MV v = check_mov_rule(c);
         if (ctx.want_sample()) ctx.put_sample(text(c.it) + " [" + combo_name(c.combo) + "] -> " + (v.ok ? "as documented" : v.symptom));
         if (!v.ok) fail_mv(ctx, c, id, "mov-r64-imm", v);
+        else if ((i + k + mode) % 5 == 0) run_fitted_line(ctx, c, true);   // the form chosen by the mode must survive the second encoding behind chunk-fitting padding
       }
     }
   }
@@ -260,7 +261,7 @@ static SpV check_spelling(const Intent &it, int combo, uint64_t styleseed) {
 // programs with blank / comment / label / directive lines inserted at every position, LF vs CRLF
 static SpV check_program_noise(const std::vector<std::string> &lines, int combo, uint64_t seed, std::string *prog_out) {
   SpV v; hz::Rng rng(seed);
-  static const char *NOISE[] = {"", "   ", "; a comment", "label:", "  loop_1:  ; with comment", "section .text", "global _start", "%define X 5", "SECTION .data", "\t; indented comment", "GLOBAL main", "%macro foo 0", ".L1:", "done: ", "top:\t", "loop: ; top of the loop", "a1: ;", "end:   ;;; x", "  exit:"};
+  static const char *NOISE[] = {"", "   ", "; a comment", "label:", "  loop_1:  ; with comment", "section .text", "global _start", "%define X 5", "SECTION .data", "\t; indented comment", "GLOBAL main", "%macro foo 0", ".L1:", "done: ", "top:\t", "loop: ; top of the loop", "a1: ;", "end:   ;;; x", "  exit:", "start :", "  loop_2   :   ; head", "x\t:"};
   bool crlf = rng.coin(); std::string nl = crlf ? "\r\n" : "\n";
   std::string canon, noisy; size_t pos = rng.below(lines.size() + 1); bool everywhere = rng.below(3) == 0;
   for (size_t i = 0; i <= lines.size(); i++) {
@@ -268,8 +269,8 @@ static SpV check_program_noise(const std::vector<std::string> &lines, int combo,
         if (rng.below(3) == 0) { // a generated label name: any identifier, also ones that end like a register, a segment or a keyword
           static const char *END[] = {"", "", "s", "cs", "ds", "es", "fs", "gs", "ss", "ax", "rax", "al", "word", "ptr", "far", "x", "0x1", "_", "1", "mm0", "section_", "h"};
           std::string name; int len = (int)rng.below(10); for (int q = 0; q < len; q++) name += "abcdefghijklmnopqrstuvwxyz_ABCDEFXYZ0123456789."[q == 0 ? rng.below(27) : rng.below(47)]; name += END[rng.below(22)]; if (name.empty() || isdigit((unsigned char)name[0])) name = "L" + name;
-          static const char *AFTER[] = {"", "", " ", "\t", " ; comment", ";x"}; noisy += std::string(rng.below(4) == 0 ? "  " : "") + name + ":" + AFTER[rng.below(6)] + nl; }
-        else noisy += std::string(NOISE[rng.below(19)]) + nl; } }
+          static const char *AFTER[] = {"", "", " ", "\t", " ; comment", ";x"}; static const char *BEFORE[] = {"", "", "", " ", "   ", "\t"}; noisy += std::string(rng.below(4) == 0 ? "  " : "") + name + BEFORE[rng.below(6)] + ":" + AFTER[rng.below(6)] + nl; }
+        else noisy += std::string(NOISE[rng.below(22)]) + nl; } }
     if (i < lines.size()) { canon += lines[i] + "\n"; noisy += lines[i] + nl; }
   }
   if (rng.coin() && !noisy.empty()) { // final line without terminator
